@@ -4,6 +4,7 @@ import (
 	"encoding/json"
 	"fmt"
 	"math/rand"
+	"net/url"
 	"strings"
 
 	"verif/harness/internal/opb"
@@ -105,6 +106,28 @@ func ietfOp(r *rand.Rand) M {
 	}
 }
 
+// pickURIs: up to n URIs of the pool, no two of which net/url writes back alike (one patch must not
+// hold two spellings of one URI: the validator refuses that; two patches may)
+func pickURIs(r *rand.Rand, n int) []interface{} {
+	us := []interface{}{}
+	seen := map[string]bool{}
+	for _, i := range r.Perm(len(uriPool)) {
+		if len(us) == n {
+			break
+		}
+		norm := uriPool[i]
+		if u, err := url.Parse(uriPool[i]); err == nil {
+			norm = u.String()
+		}
+		if seen[norm] {
+			continue
+		}
+		seen[norm] = true
+		us = append(us, uriPool[i])
+	}
+	return us
+}
+
 func validatedPatch(r *rand.Rand) M {
 	switch r.Intn(10) {
 	case 0, 1:
@@ -143,16 +166,9 @@ func validatedPatch(r *rand.Rand) M {
 		}
 		return M{"action": "remove-services", "ids": ids}
 	case 5:
-		us := []interface{}{}
-		for _, i := range r.Perm(len(uriPool))[:1+r.Intn(3)] {
-			us = append(us, uriPool[i])
-		}
-		return M{"action": "add-also-known-as", "uris": us}
+		return M{"action": "add-also-known-as", "uris": pickURIs(r, 1+r.Intn(3))}
 	case 6:
-		us := []interface{}{}
-		for _, i := range r.Perm(len(uriPool))[:1+r.Intn(3)] {
-			us = append(us, uriPool[i])
-		}
+		us := pickURIs(r, 1+r.Intn(3))
 		if r.Intn(3) == 0 {
 			us = append(us, "https://never.example/")
 		}
